@@ -22,11 +22,62 @@ EXPLANATION = (
 ASSUMPTIONS = ["argparse behaviour is the stdlib's", "the meaning of the written text is C01's"]
 
 
+class _Script:
+    """The command-line module with its flow made straight-line: a parameterless function that the
+    module body calls unconditionally (`main()`, also in the shape `if __name__ == "__main__":
+    main() else: main()`) is inlined at its call, so the statement-level rules see one script."""
+
+    def __init__(self, mi):
+        self.mi = mi
+        self.rel = mi.rel
+        self.name = mi.name
+        self.tree = _inline_entry(mi.tree)
+
+    def __getattr__(self, item):
+        return getattr(self.mi, item)
+
+
+def _inline_entry(tree):
+    defs = {st.name: st for st in tree.body if isinstance(st, ast.FunctionDef) and not (st.args.args or st.args.posonlyargs or st.args.kwonlyargs or st.args.vararg or st.args.kwarg)}
+
+    def single_call(stmts):
+        real = [s_ for s_ in stmts if not (isinstance(s_, ast.Expr) and isinstance(s_.value, ast.Constant))]
+        if len(real) == 1 and isinstance(real[0], ast.Expr) and isinstance(real[0].value, ast.Call) and isinstance(real[0].value.func, ast.Name) and real[0].value.func.id in defs and not real[0].value.args and not real[0].value.keywords:
+            return real[0].value.func.id
+        return None
+
+    body = []
+    inlined = set()
+    for st in tree.body:
+        name = None
+        if isinstance(st, ast.Expr):
+            name = single_call([st])
+        elif isinstance(st, ast.If) and st.orelse:
+            a, b = single_call(st.body), single_call(st.orelse)
+            if a is not None and a == b:
+                name = a
+        if name is not None and name not in inlined:
+            inlined.add(name)
+            fbody = [x for x in defs[name].body if not isinstance(x, (ast.Global, ast.Nonlocal))]
+            if any(isinstance(x, ast.Return) for f_ in fbody for x in ast.walk(f_)):
+                body.append(st)  # early returns: keep the call (not the modelled shape)
+                inlined.discard(name)
+            else:
+                body.extend(fbody)
+        else:
+            body.append(st)
+    body = [st for st in body if not (isinstance(st, ast.FunctionDef) and st.name in inlined)]
+    return ast.Module(body=body, type_ignores=[])
+
+
 def _main(prog):
     mi = prog.modules.get("oneliner.__main__")
     if mi is None:
         raise AnalysisError("anchor module oneliner.__main__ vanished")
-    return mi
+    cache = prog.__dict__.setdefault("_c16_script", {})
+    if "s" not in cache:
+        cache["s"] = _Script(mi)
+    return cache["s"]
 
 
 def _calls(n):
@@ -278,7 +329,7 @@ def _eval_accepted(prog, ci, names, expr_name):
             break
         earlier.append(nm)
     if target is None:
-        return None
+        return _accepted_from_decorator(prog, ci, names, expr_name)
     v = target.value
     # tuple(...)/list(...)/set(...) wrappers
     while isinstance(v, ast.Call) and isinstance(v.func, ast.Name) and v.func.id in ("tuple", "list", "set", "frozenset", "sorted") and len(v.args) == 1:
@@ -301,6 +352,52 @@ def _eval_accepted(prog, ci, names, expr_name):
                         return None
                 if keep:
                     out.add(nm)
+            return out
+    return None
+
+
+def _accepted_from_decorator(prog, ci, names, attr):
+    """`@deco class Configs` where deco does `cls.<attr> = tuple(n for n, v in vars(cls).items() if
+    isinstance(v, <Descriptor>))`: the names bound in the class body to descriptor instances."""
+    desc = _descriptor_classes(prog)
+    for d in ci.node.decorator_list:
+        r = prog.resolve_expr_static(ci.module, d) if isinstance(d, (ast.Name, ast.Attribute)) else None
+        fn = getattr(r, "node", None)
+        if not isinstance(fn, ast.FunctionDef) or not fn.args.args:
+            continue
+        cls_param = fn.args.args[0].arg
+        for st in ast.walk(fn):
+            if not (isinstance(st, ast.Assign) and len(st.targets) == 1 and isinstance(st.targets[0], ast.Attribute) and st.targets[0].attr == attr and isinstance(st.targets[0].value, ast.Name) and st.targets[0].value.id == cls_param):
+                continue
+            v = st.value
+            while isinstance(v, ast.Call) and isinstance(v.func, ast.Name) and v.func.id in ("tuple", "list", "set", "frozenset", "sorted") and len(v.args) == 1:
+                v = v.args[0]
+            if not (isinstance(v, (ast.GeneratorExp, ast.ListComp, ast.SetComp)) and len(v.generators) == 1):
+                return None
+            g = v.generators[0]
+            it_txt = ast.unparse(g.iter).replace(" ", "")
+            if it_txt not in (f"vars({cls_param}).items()", f"{cls_param}.__dict__.items()"):
+                return None
+            if not (isinstance(g.target, ast.Tuple) and len(g.target.elts) == 2 and all(isinstance(e, ast.Name) for e in g.target.elts)):
+                return None
+            key_var, val_var = g.target.elts[0].id, g.target.elts[1].id
+            if not (isinstance(v.elt, ast.Name) and v.elt.id == key_var):
+                return None
+            # the only filter understood: isinstance(value, <descriptor class>)
+            if len(g.ifs) != 1:
+                return None
+            c = g.ifs[0]
+            if not (isinstance(c, ast.Call) and isinstance(c.func, ast.Name) and c.func.id == "isinstance" and len(c.args) == 2 and isinstance(c.args[0], ast.Name) and c.args[0].id == val_var):
+                return None
+            k = prog.resolve_expr_static(r.module, c.args[1]) if isinstance(c.args[1], (ast.Name, ast.Attribute)) else None
+            if k not in desc:
+                return None
+            out = set()
+            for nm, st2 in names:
+                if isinstance(st2, ast.Assign) and isinstance(st2.value, ast.Call):
+                    rr_ = prog.resolve_expr_static(ci.module, st2.value.func) if isinstance(st2.value.func, (ast.Name, ast.Attribute)) else None
+                    if rr_ is k or (rr_ in desc and k in getattr(rr_, "mro", lambda: [])()):
+                        out.add(nm)
             return out
     return None
 
